@@ -17,6 +17,7 @@ import randschema
 
 FAMILY = "tl2"
 DRIVER_FILES = ["main.go", "ops_tl1.go", "ops_tl2.go"]
+MODEL_MAX_LINE = 300000
 
 
 def write_ir2_file(ins, path):
@@ -123,7 +124,9 @@ class ModelView:
 
 def model_run(ref, mv, lines, tid_pos):
     """run the model on the lines whose type it covers; result list has None elsewhere"""
-    idx = [i for i, l in enumerate(lines) if mv.covers(l.split(" ")[tid_pos])]
+    # inputs above MODEL_MAX_LINE characters (FillRandom occasionally produces megabytes) are left to
+    # the implementation-side oracle: the list-of-N model is too slow on them
+    idx = [i for i, l in enumerate(lines) if len(l) <= MODEL_MAX_LINE and mv.covers(l.split(" ", tid_pos + 2)[tid_pos])]
     res = [None] * len(lines)
     if not idx:
         return res, None
